@@ -5,7 +5,8 @@
 // is already cancelled; only the loop body is skipped then) and leaves C registered in the binding thread's list.
 //
 // program text:
-//   cfg par=<2..4> ext=<0..2> top=<1..3>
+//   cfg par=<2..4> ext=<0..2> top=<1..3> again=<0|w>     again: after the judged first round the outer context is reset() and the outer task_group is used a
+//                                                       second time; a task of it cancels context 0 after w points: every context still bound beneath it must get cancelled
 //   b <unit> <op> ...      builder unit; units 0..top-1 are the tasks of the outer task_group (context 0, a root)
 //      W<k>                     k decision points of work
 //      N<c>:<kind>:<del>:<u>[,<u>...]   create context c (kind 1 bound / 0 isolated), parallel_for(simple, grain 1) over the sub-units
@@ -80,7 +81,7 @@ std::string h_gen(Src& s) {
     }
     // destruction of leaf contexts nobody else may touch
     for (auto& c : g.ctxs) if (c.leaf && !c.xtarget) { c.del = (int)s.weighted({ 4, 1, 2 }); if (c.del == 2) xs[s.choose((uint32_t)ext)] += " D" + std::to_string(c.id); }
-    std::string o = "cfg par=" + std::to_string(par) + " ext=" + std::to_string(ext) + " top=" + std::to_string(top) + "\n";
+    std::string o = "cfg par=" + std::to_string(par) + " ext=" + std::to_string(ext) + " top=" + std::to_string(top) + " again=" + std::to_string(s.coin(3) ? s.range(1, 6) : 0) + "\n";
     std::sort(g.lines.begin(), g.lines.end());
     for (auto& l : g.lines) {
         std::string t = l.second;
@@ -237,10 +238,10 @@ static void judge(bool r0_reset_expected) {
 }
 
 void h_run(Case& c) {
-    int par = 2, ext = 1, top = 1;
+    int par = 2, ext = 1, top = 1, again = 0;
     for (auto& l : c.lines) {
         auto w = split_ws(l);
-        if (w[0] == "cfg") { par = (int)kvl(l, "par", 2); ext = (int)kvl(l, "ext", 1); top = (int)kvl(l, "top", 1); g_witness = kvl(l, "witness", 0) != 0; }
+        if (w[0] == "cfg") { par = (int)kvl(l, "par", 2); ext = (int)kvl(l, "ext", 1); top = (int)kvl(l, "top", 1); again = (int)kvl(l, "again", 0); g_witness = kvl(l, "witness", 0) != 0; }
         else if (w[0] == "b" || w[0] == "x") {
             size_t id = (size_t)atoi(w[1].c_str()); auto& V = w[0] == "b" ? B : X; if (V.size() <= id) V.resize(id + 1);
             for (size_t i = 2; i < w.size(); i++) {
@@ -274,6 +275,28 @@ void h_run(Case& c) {
         vs_wait_quiescent();
         r0_targeted = targeted(0);
         judge(r0_targeted);
+        if (again > 0) {
+            // second use of the same group and context: reset() (no task of the group is running), then a task cancels the group's context.
+            // Every context that is still alive and bound beneath context 0 through bound links only must be cancelled afterwards.
+            C[0].p->reset();
+            if (C[0].p->is_group_execution_cancelled()) vs_violation("RESET-MISSING", "task_group_context::reset() left the context cancelled");
+            int w = again; bool res = false;
+            tg->run([w, &res] { vs_work(w); res = C[0].p->cancel_group_execution(); });
+            tg->run([w] { vs_work(w / 2); });
+            tbb::task_group_status st = tg->wait();
+            if (!res) vs_violation("CANCEL-NO-EFFECT", "second round: cancel_group_execution on the reset context returned false");
+            if (st != tbb::canceled) vs_violation("CANCEL-NO-EFFECT", "second round: the outer task_group was cancelled but wait() returned %d", (int)st);
+            vs_wait_quiescent();
+            long n2 = 0;
+            for (int c = 1; c <= MAXC; c++) {
+                Ctx& x = C[c]; if (!x.created || x.deleted) continue;
+                bool under0 = false; for (int a = c; a >= 0; a = C[a].bparent) if (a == 0) { under0 = true; break; }
+                if (!under0) continue;
+                n2++;
+                if (!x.p->is_group_execution_cancelled()) vs_violation("MISSED-DESCENDANT", "second round: context 0 was reset and cancelled again, context %d is still bound beneath it (depth %d) and was not cancelled", c, [&] { int d = 0; for (int a = c; a > 0; a = C[a].bparent) d++; return d; }());
+            }
+            if (n2) vs_stat_flag("second_round_cancel_reaches_kept_contexts");
+        }
         delete tg;
     }
     vs_ok();
